@@ -163,6 +163,10 @@ class ConveyorBelt(Edge):
         print(f"T={self.env.now:.2f}: Conveyor:put: putting item {item.id} ")
         delay = self.length * self.capacity/self.speed
         item.conveyor_entry_time = self.env.now
+        # the item may come from another conveyor: what it recorded there must not count on this belt
+        item.total_interruption_time = 0
+        item.interruption_start_time = None
+        item.conveyor_ready_item_entry_time = None
         item_to_put = (item, delay)
         print(f"T={self.env.now:.2f}: {self.id }:put: putting item {item_to_put[0].id} on belt with delay {item_to_put[1]} {self.state}")
         return_val = self.belt.put(event, item_to_put)
